@@ -65,6 +65,12 @@ reg('C04', 'exhaustive short-text enumeration + Hypothesis text atoms / wrap-lin
     '(multi-line text without repeater: by trimmed line sequence inside the target element).',
     'Raw `$#`/`${` in inline text without model atoms, text starting with `<tag`, line-boundary characters of str.splitlines() and more than one implicit repeater are not generated.')
 
+reg('C05', 'exhaustive colour/number-pair enumeration + Hypothesis value sequences; differential against a reference CSS line model with colour round trip',
+    'All 1-, 2-, 3-digit hex colours and a 16^3 grid of 6-digit colours × 5 alpha forms × shortHex on/off, and all ordered pairs of 22 number shapes × signs on a unit-taking and a unit-less key are '
+    'expanded; Hypothesis draws 1–3 properties with 1–4 mixed values, `!`, across 6 syntaxes and the unit/alias/shortHex/format/between/after options. Numbers and structure are compared exactly '
+    'with the reference line; each printed colour token is parsed back and must denote the written (r,g,b,a), be short only when allowed, and be rgba iff alpha < 1.',
+    'The abbreviation text is written with the documented separator rule; 4/5/7+-digit hex, `-0`, `#t` with alpha, > 4 decimals and keywords are not generated.')
+
 NOT_APPLICABLE = [
 ]
 
